@@ -7,7 +7,7 @@ ID = "C09"
 LEVEL = "exploration"
 RULE = ("numeric arrays of 1-4 dims, sizes 1-5 on the operated axis, label kinds int/float/str in any order; operation in {cumsum, cumprod, "
         "cum* with default axis, diff(n in 1..3, scheme in backward/forward/centered, keepaxis), argmin/argmax along an axis, over the "
-        "whole array, with ties and NaNs, skipna both ways}; axis by name / position / default. class = (operation, parameters, data kind, "
+        "whole array, with ties and NaNs, unsigned data and data holding its type's lowest value, skipna both ways; diff asked again after an in-place relabel}; axis by name / position / default. class = (operation, parameters, data kind, "
         "label kind of the axis, size of the axis vs n, ndim); trivial = none")
 ANCHORS = ["transform.cumsum", "transform.cumprod", "transform.diff", "transform._append_nans", "transform.argmin", "transform.argmax"]
 # entry points the workload calls itself; the other anchors are helpers behind them (counted as evidence only)
